@@ -98,9 +98,9 @@ prop("C18", ["initializers.*", "tensor.RandU", "tensor.RandN", "tensor.Full"],
      assumptions=["gonum distuv.{Uniform,Normal}.Rand() draws independent samples of the named law (external code)"],
      expl="Every initializer returns a tracked leaf of exactly the requested shape; the distribution parameters handed to RandU / RandN are exactly +-sqrt(6/fanIn), +-sqrt(6/(fanIn+fanOut)), sqrt(2/fanIn), sqrt(2/(fanIn+fanOut)), the configured or the default values; uniform draws lie in [lower, upper). The statistical law is an assumption.")
 prop("C19", ["metrics.*"],
-     paper=["COUNT: the sum of a 0/1 tensor is the number of ones, an integer in [0, n]; counts are additive over concatenation (partition invariance)"],
+     paper=["counts are additive over concatenation (partition invariance); COUNT itself - the sum of a 0/1 tensor is the number of its ones, an integer in [0, n] - is machine-checked (lemma sumBinary over foldOnes / onesBound)"],
      bounded=[("TestAccuracyPartition", "partition invariance on concrete data (every split of a data set into batches gives the same result)", "data sets of <= 8 positions, every split into <= 3 batches")],
-     expl="Accuracy: invariant 0 <= correct <= total; a rejected call writes nothing; an accepted call adds the batch size and the number of matching positions; Result is 0 before any call, else correct/total in [0,1].")
+     expl="Accuracy: invariant 0 <= correct <= total; a rejected call writes nothing; an accepted call adds the batch size and the number of matching positions (defined as the sum of the 0/1 indicator tensor that Eq returns; that this sum is a whole number between 0 and the batch size is proved from the tree-level counting lemmas, not assumed); Result is 0 before any call, else correct/total in [0,1].")
 prop("C20", PUBLIC_TENSOR + ["tensor.*", "cputensor.Concat"] + G(RULES + ["Broadcast", "anyIsBPDirty", "nonIsTracked", "gradContextOf"]) + ["activations.*", "losses.*", "layers.FC.Forward"],
      bounded=[("TestConcurrent", "go test -race over concurrent forward computations, graph construction on shared tracked parameters and back-propagation of graphs sharing only untracked tensors", "8 goroutines x 50 iterations")],
      paper=["DRF: disjoint write sets + immutable shared reads => no data race and sequential results (Go memory model)"],
